@@ -15,6 +15,7 @@ package vrt
 import (
 	"fmt"
 	"os"
+	"reflect"
 	"runtime"
 	"strings"
 	"unsafe"
@@ -80,6 +81,7 @@ type ChanState struct {
 	recvx  int
 }
 
+//go:norace
 func (c *ChanState) Len() int { return len(c.buf) }
 
 //go:norace
@@ -162,6 +164,9 @@ type Thread struct {
 
 	hb  [6]hbAct
 	nhb int
+	out byte // race build: the thread's clock at its last park
+	pcs map[uint64]stackInfo
+	rootPtr unsafe.Pointer
 
 	// run-length cap on identical consecutive observations (see note)
 	digestBefore uint64
@@ -172,6 +177,7 @@ type Thread struct {
 	User any // harness data
 }
 
+//go:norace
 func (t *Thread) Done() bool { return t.done }
 
 // PendingKind returns the kind of the operation the thread is parked on (0 if none).
@@ -325,7 +331,7 @@ type Trans struct {
 type World struct {
 	Opt      Options
 	Threads  []*Thread
-	chans    map[unsafe.Pointer]*ChanState
+	chanPtrs []unsafe.Pointer
 	ChanList []*ChanState
 	objs     []KeyedObj
 	tickers  []*ticker
@@ -356,6 +362,18 @@ type KeyedObj interface {
 	KeyHash() uint64
 }
 
+// chanByPtr finds a registered channel.
+//
+//go:norace
+func (w *World) chanByPtr(p unsafe.Pointer) (*ChanState, bool) {
+	for i, q := range w.chanPtrs {
+		if q == p {
+			return w.ChanList[i], true
+		}
+	}
+	return nil, false
+}
+
 // W is the world of the execution in progress (one per process at a time).
 var W *World
 
@@ -372,7 +390,17 @@ func NewWorld(opt Options) *World {
 	if opt.Unit == 0 {
 		opt.Unit = 1
 	}
-	w := &World{Opt: opt, toDriver: make(chan struct{}), chans: map[unsafe.Pointer]*ChanState{}, pcCache: pcCache}
+	w := &World{Opt: opt, toDriver: make(chan struct{}), pcCache: pcCache}
+	// preallocated: appends by virtual threads must never grow these slices in the
+	// race build (growslice is instrumented inside the runtime)
+	w.chanPtrs = make([]unsafe.Pointer, 0, 512)
+	w.ChanList = make([]*ChanState, 0, 512)
+	w.Threads = make([]*Thread, 0, 128)
+	w.objs = make([]KeyedObj, 0, 256)
+	w.tickers = make([]*ticker, 0, 64)
+	if opt.Trace {
+		w.TraceLog = make([]string, 0, opt.MaxSteps+4096)
+	}
 	W = w
 	return w
 }
@@ -388,8 +416,13 @@ func (w *World) stateOf(p unsafe.Pointer, c int) *ChanState {
 	if p == nil {
 		return nil
 	}
-	if s, ok := w.chans[p]; ok {
-		return s
+	for i, q := range w.chanPtrs {
+		if q == p {
+			return w.ChanList[i]
+		}
+	}
+	if len(w.ChanList) == cap(w.ChanList) {
+		panic("vrt: too many channels")
 	}
 	s := &ChanState{Seq: len(w.ChanList), Cap: c}
 	if raceEnabled {
@@ -401,7 +434,7 @@ func (w *World) stateOf(p unsafe.Pointer, c int) *ChanState {
 	} else {
 		s.ID = Mix(0x5eed, uint64(len(w.ChanList)))
 	}
-	w.chans[p] = s
+	w.chanPtrs = append(w.chanPtrs, p)
 	w.ChanList = append(w.ChanList, s)
 	return s
 }
@@ -461,6 +494,9 @@ func (w *World) op(p *pending) *result {
 	t := w.cur
 	t.pend = p
 	t.prepark()
+	if raceEnabled {
+		raceRelease(unsafe.Pointer(&t.out))
+	}
 	raceDisable()
 	w.toDriver <- struct{}{}
 	<-t.wake
@@ -526,10 +562,23 @@ func (t *Thread) prepark() {
 	for _, pc := range pcs[:n] {
 		ph = Mix(ph, uint64(pc))
 	}
-	si, ok := w.pcCache[ph]
+	// race build: a per-thread cache (a shared map would be reported by the
+	// instrumented runtime map code and must not be synchronised either)
+	cache := w.pcCache
+	if raceEnabled {
+		if t.pcs == nil {
+			t.pcs = map[uint64]stackInfo{}
+		}
+		cache = t.pcs
+	}
+	si, ok := cache[ph]
 	if !ok {
 		si = symbolize(pcs[:n])
-		w.pcCache[ph] = si
+		cache[ph] = si
+	}
+	if raceEnabled && t.Root != nil && !w.Opt.KeyHistory {
+		// the owning thread hashes its own object (the driver must not read it)
+		t.rootHash = HashRoot(t.Root)
 	}
 	t.stack = si.hash
 	t.digestBefore = t.digest
@@ -779,8 +828,16 @@ func (w *World) spawn(name string, root any, lib bool, fn func()) *Thread {
 		t.Path = name
 	}
 	t.KeyName = HashString(t.Path)
+	if root != nil {
+		if rv := reflect.ValueOf(root); rv.Kind() == reflect.Pointer && !rv.IsNil() {
+			t.rootPtr = rv.UnsafePointer()
+		}
+	}
 	if lib && w.Opt.ResetDepth != nil {
 		t.resetDepth = w.Opt.ResetDepth(name)
+	}
+	if len(w.Threads) == cap(w.Threads) {
+		panic("vrt: too many threads")
 	}
 	w.Threads = append(w.Threads, t)
 	go t.run(fn)
@@ -1000,6 +1057,16 @@ const obsCap = 8
 
 //go:norace
 func (w *World) tracef(format string, args ...any) {
+	if w.Opt.Trace && raceEnabled {
+		// the driver must not read user values in the race build
+		for i, a := range args {
+			switch a.(type) {
+			case string, int, int64, bool, *ChanState, nil:
+			default:
+				args[i] = "·"
+			}
+		}
+	}
 	if w.Opt.Trace {
 		w.TraceLog = append(w.TraceLog, fmt.Sprintf("%4d @%d ", w.Steps, w.Clock)+fmt.Sprintf(format, args...))
 	}
@@ -1107,10 +1174,10 @@ func (w *World) apply(tr Trans) {
 				u.steps++
 				w.note(u, EvRecv, c.ch, tr.PCase, c.vh, true)
 				if raceEnabled {
-					// unbuffered: sender releases, receiver acquires and releases, sender acquires
-					t.addHB(&c.ch.sync[0], 2)
-					u.addHB(&c.ch.sync[0], 3)
-					t.addHB(&c.ch.sync[0], 1)
+					// unbuffered rendezvous: each side acquires what the other had done
+					// when it parked on the operation
+					u.addHB(&t.out, 1)
+					t.addHB(&u.out, 1)
 				}
 				w.tracef("%s: send %s <- %v  (rendezvous with %s)", t.Name, c.ch, c.val, u.Name)
 				w.emit(&Event{Kind: EvSend, T: t, Ch: c.ch, Val: c.val, OK: true, Idx: tr.Case})
@@ -1198,7 +1265,7 @@ func (w *World) Key() uint64 {
 			h += Mix(t.KeyName, d)
 			continue
 		}
-		if t.Root != nil && !w.Opt.KeyHistory {
+		if t.Root != nil && !w.Opt.KeyHistory && !raceEnabled {
 			if t.Root != lastRoot {
 				lastRoot, lastRootHash = t.Root, HashRoot(t.Root)
 			}
@@ -1347,6 +1414,8 @@ func (w *World) looseKey() uint64 {
 		k := Mix(t.KeyName, t.stack)
 		if t.Root != nil && !raceEnabled {
 			k = Mix(k, HashRoot(t.Root))
+		} else {
+			k = Mix(k, t.rootHash)
 		}
 		if t.pend != nil {
 			k = Mix(k, t.pend.h)
